@@ -323,3 +323,44 @@ func VerifC07XSign() { verifC07XSign(3, 2) }
 func VerifC07AcceptQuick()    { verifC07Accept(3, 1) }
 func VerifC07AcceptThorough() { verifC07Accept(3, 2) }
 func VerifC07AcceptV1()       { verifC07Accept(1, 2) }
+
+// verifC07BlockPath: a block from a peer carries a transaction that spends B's output to C with no
+// signature at all; the flags that route a block's transaction around ImmediateVerifyTx are arbitrary
+// (Autogen, Coinbase). Playing the block (as a node does for a peer's block) and walking to it must be
+// refused: nothing is spent unsigned, also through a block.
+func verifC07BlockPath() {
+	e := vkit.NewEnv("c07b", vkit.Genesis("0", "9", "5"), nil)
+	s := e.NewState("live")
+	vrt.Assert(s.Play(e.Root.Blockid) == nil, "genesis-plays")
+	t := vkit.Tx("steal", []*protos.TxInput{vkit.In(e.RootTx.Txid, 1, "B", big.NewInt(5))}, []*protos.TxOutput{vkit.Out("C", big.NewInt(5), 0)})
+	t.Version = 1
+	t.Initiator = "C"
+	t.Autogen = vrt.Bool("autogen")
+	withKey := vrt.Bool("with-ext-output")
+	if withKey {
+		vkit.WithKey(t, "bk", "k1", nil, 0, []byte("x"))
+	}
+	txs := []*pb.Transaction{vkit.Coinbase("cb1", "M", []byte{7}), t}
+	if vrt.Bool("flagged-coinbase") {
+		// the unsigned spend poses as the block's (single) award transaction
+		t.Coinbase = true
+		txs = []*pb.Transaction{t}
+	}
+	b := vkit.Block(e.Root.Blockid, 1, txs)
+	vrt.Assert(e.L.ConfirmBlock(b, false).Succ, "ledger-stores-block")
+	var err error
+	if vrt.Choice("path", 2) == 0 {
+		err = s.PlayAndRepost(b.Blockid, false, false)
+	} else {
+		err = s.Walk(b.Blockid, false)
+	}
+	vrt.Quiesce()
+	vrt.Cover("refused", err != nil)
+	vrt.Assert(err != nil, "block-with-an-unsigned-spend-is-refused")
+	if err == nil {
+		bal, _ := s.GetBalance("C")
+		vrt.Assert(bal == nil || bal.Sign() == 0, "unsigned-spend-moved-no-tokens")
+	}
+}
+
+func VerifC07BlockPath() { verifC07BlockPath() }
